@@ -184,6 +184,7 @@ func rulesC16(c *Ctx) {
 	crfoldRule(c, "C16.crfold")
 	commentsRule(c, "C16.comments")
 	afterWSRule(c, tt)
+	parseFreshRule(c, "C16.parsefresh")
 	regexGapRule(c)
 	n := probeBalance(c, "C16.noleak")
 	c.Floor("C16.noleak", n, 120)
